@@ -13,6 +13,7 @@ OWNER = {  # which properties own a model guard (first rejected label of a trace
     "more-processes-alive-than-cores": ("C12",), "free-core-idle-while-task-ready": ("C12",),
     "process-still-alive": ("C12", "C13"),          # a core given back while the task's process lives
     "finished-holding-core": ("C12", "C13"), "finished-with-process-alive": ("C12", "C13"),
+    "kill-without-cancel-or-timeout": ("C13", "C17"),   # a task is torn down that nobody asked to cancel
 }
 
 # oracle conjuncts that a second property's statement covers as well: C13 says "failed if a dependency
@@ -21,6 +22,9 @@ OWNER = {  # which properties own a model guard (first rejected label of a trace
 ALSO = {
     "C13": ("C11:dependent-of-failed-task-wrong-final-state", "C11:started-although-dependency-did-not-complete",
             "C11:started-although-dependency-did-not-exit-0"),
+    # C17: cancel reaches the selected targets' jobs and no other: on the local pool, a task ends CANCELLED only if it
+    # or one of its dependencies was cancelled, and a cancelled live task does end CANCELLED
+    "C17": ("C13:cancelled-without-cancel", "C13:cancelled-task-not-cancelled"),
 }
 
 
@@ -284,6 +288,13 @@ def run_prop(chk, prop, rule, assumptions, real_runs):
         real_process_runs(chk, prop, real_runs)
     if len(chk.distinct) < 200:
         raise common.Broken("degenerate generator: too few traces with a fault and competing tasks")
+
+
+def cancel_subrun(chk, prop, n):
+    """for C17: histories of the REAL pool scheduler that contain cancels of waiting and running tasks with dependencies"""
+    cases, ncorp, nenum = build_cases(chk)
+    sel = [c for c in cases if any(o[0] == "cancel" for o in c[1]) and any(o[0] == "enq" and o[1] for o in c[1])][:n]
+    check_pool(chk, prop, sel, "pool-cancel-history")
 
 
 def replay_prop(chk, prop, rule, data):
